@@ -40,7 +40,8 @@ def run(ctx):
     ctx.assumptions += [
         "ATOMICITY: TaskExecutor.ExecuteAt/ExecuteAfter(id), Cancel(id) and the wrapper's clean-up are single steps of the model (add_step, tcancel_step, the WDeliv step) because the code holds queuedElementsMutex across each whole read-modify-write of queuedElements and the queue; this is tied to the code by the free-running race family (unique token per task; per identifier ran + Cancel=true + pending <= scheduled and >= 1, exactly-one accounting per round of one task vs. concurrent Cancels, Size() <= #identifiers at every sampled instant, Size() = 0 after Cancel of every identifier) and, in the thorough tier, the race detector - not by a proof about sync.Mutex; C18_refuted_split_cancel / C18_refuted_split_cancel_twice show that every TaskExecutor clause fails when Cancel is cut into look-up / element.Cancel() / Delete with another call in between",
         "Queue.Add's shutdown test and its push are one atomic step of the model (the code tests IsShutdown before taking heapMutex; an Add racing with Shutdown was not reproduced in 3000 trials)",
-        "PanicOnModificationsAfterShutdown, DontWaitForShutdown/shutdownWG and Poll(waitIfEmpty=false) are outside the model; workers are Poll(true) loops as in Executor.startBackgroundWorkers",
+        "PanicOnModificationsAfterShutdown is not a parameter of the model: a modification refused after Shutdown (Add / ExecuteAt / ExecuteAfter returning nil, a further Shutdown) is the same model step with or without the flag (no change of the queue; TaskExecutor.ExecuteAt still cancels the identifier's previous task first, as the code does); the outcome class nil / panic is judged Go-side (panics exactly for Add/ExecuteAt/ExecuteAfter/Shutdown after a Shutdown that had the flag; every client operation of the lockstep scripts and the timing plans runs under recover + watchdog) and the usual delivery oracle / model comparison continues after the recovered panic (lockstep TaskExecutor scripts, timing plans on Queue / Executor / TaskExecutor with elements pending at the Shutdown); a further Shutdown must not adopt its own flags",
+        "DontWaitForShutdown/shutdownWG and Poll(waitIfEmpty=false) are outside the model; workers are Poll(true) loops as in Executor.startBackgroundWorkers; the first Shutdown always carries DontWaitForShutdown (the wait is exercised by a second, flag-less Shutdown() that must return once every pending element had its time - not possible with the panic flag, where the run polls the deliveries instead)",
         "timer accuracy and scheduler latency are runtime behaviour: the timing runs judge recorded stamps with a guard band of one grid step (50 ms); the timer is modelled as 'fires at or after its time'",
         "C18_task_executor clauses 2-5 are for schedules passing te_guard: no Add whose size bound drops an element, no effective Shutdown with CancelPendingElements, no Cancel() through the returned *ScheduledTask of a task the map still tracks (exactly the patterns of finding taskexecutor-stale-identifier, witnesses C18_refuted_stale_identifier); clause 1 (a replaced/cancelled task never starts) is unguarded",
         "C18_eventually_once_blocked: fairB is a premise on the schedule (a worker whose callback never returns is never stepped again, every other worker is scheduled infinitely often, clock unbounded); the burst family parks the pollers by reading the waiter count of sync.Cond (notifyList.wait - notify) through reflection",
